@@ -28,7 +28,8 @@ MANIFEST = {
             "denotes an excluded MAC class, cipher or key exchange (selectors_respect_excluded_names). Tie: generated tables + "
             "exhaustive correspondence of every mirrored function with the real one + live loopback handshakes per suite and version "
             "observing key-exchange classes, handshake messages, certificate kind, installed key/IV/MAC lengths, record sizes and "
-            "the accessor names; a second independent parser in Python is the direct oracle.",
+            "the accessor names; faulty-peer streams (ServerHello / ClientHello carrying a suite of the wrong era) against both roles, "
+            "mirrored by client_rejects_out_of_version_suite; a second independent parser in Python is the direct oracle.",
     "note": "Trusted: Lean kernel (axioms propext, Classical.choice, Quot.sound), translator gen_suites.py, the correspondence "
             "harness, hashlib/hmac. 'Defined in a version' is read as: SHA-1/MD5-MAC CBC/stream suites from SSLv3, SHA-2-MAC and AEAD "
             "suites TLS 1.2 only, TLS_AES_*/TLS_CHACHA20_* TLS 1.3 only (RFC 4492/5054 suites in SSLv3 are not flagged). "
@@ -1182,17 +1183,367 @@ def live_part(ctx, neg, budget_s):
                                     "wall_s": round(time.time() - t0, 1)}
 
 
+# ----------------------------------------------------------------------------------------------
+# faulty peers: a peer that picks / offers a suite the negotiated version does not define
+# ----------------------------------------------------------------------------------------------
+
+def full_settings(minv, maxv):
+    from tlslite.handshakesettings import HandshakeSettings
+    mac, ciph, kex = vocab()
+    st = HandshakeSettings()
+    st.minVersion, st.maxVersion = minv, maxv
+    st.cipherNames, st.macNames, st.keyExchangeNames = list(ciph), list(mac), list(kex)
+    st.dhGroups = ["ffdhe2048"]
+    st.eccCurves = ["secp256r1", "x25519"]
+    st.keyShares = ["secp256r1"]
+    st.ticket_count = 0
+    return st
+
+
+def start_client(kind, st):
+    """(connection, generator, pipe client->server, pipe server->client)"""
+    from tlslite.tlsconnection import TLSConnection
+    a, b = Pipe(), Pipe()
+    c = TLSConnection(MemSock(b, a))
+    if kind == "srp":
+        g = c.handshakeClientSRP("user", "password", settings=st, async_=True)
+    elif kind == "anon":
+        g = c.handshakeClientAnonymous(settings=st, async_=True)
+    else:
+        g = c.handshakeClientCert(settings=st, async_=True)
+    return c, g, a, b
+
+
+def start_server(kind, st, a, b, cred_kind="rsa"):
+    from tlslite.tlsconnection import TLSConnection
+    srv = TLSConnection(MemSock(a, b))
+    if kind == "srp":
+        cred = creds(cred_kind) if cred_kind else None
+        g = srv.handshakeServerAsync(verifierDB=verifier_db(), settings=st,
+                                     **(dict(certChain=cred[0], privateKey=cred[1]) if cred else {}))
+    elif kind == "anon":
+        g = srv.handshakeServerAsync(anon=True, settings=st)
+    else:
+        cred = creds(cred_kind)
+        g = srv.handshakeServerAsync(certChain=cred[0], privateKey=cred[1], settings=st)
+    return srv, g
+
+
+def step_until_blocked(g, pipe_in, limit=2000):
+    """advance a handshake generator until it waits for input that is not there.
+    -> 'blocked' | 'completed' | ('alert', description) | ('error', exception name)"""
+    from tlslite.errors import TLSLocalAlert
+    try:
+        for _ in range(limit):
+            r = next(g)
+            if r == 0 and not pipe_in.buf:
+                return "blocked"
+        return ("error", "no-progress")
+    except StopIteration:
+        return "completed"
+    except TLSLocalAlert as e:
+        return ("alert", e.description)
+    except Exception as e:
+        return ("error", exc_name(e))
+
+
+def first_handshake_msg(log, want_type):
+    """(record_version_bytes, message bytes) of the first handshake message in a plaintext log, if it
+    has the wanted type"""
+    if len(log) < 9 or log[0] != 22:
+        return None
+    ln = (log[3] << 8) | log[4]
+    body = bytes(log[5:5 + ln])
+    if not body or body[0] != want_type:
+        return None
+    mlen = (body[1] << 16) | (body[2] << 8) | body[3]
+    if 4 + mlen > len(body):
+        return None
+    return bytes(log[1:3]), body[:4 + mlen]
+
+
+def hello_fields(msg):
+    """offsets in a ClientHello / ServerHello message: session id and the suite field"""
+    sid_len = msg[38]
+    sid = msg[39:39 + sid_len]
+    p = 39 + sid_len
+    if msg[0] == 1:
+        n = (msg[p] << 8) | msg[p + 1]
+        suites = [(msg[p + 2 + i] << 8) | msg[p + 3 + i] for i in range(0, n, 2)]
+        return {"sid": sid, "suites_at": p, "suites_len": n, "suites": suites}
+    return {"sid": sid, "suite_at": p, "suite": (msg[p] << 8) | msg[p + 1]}
+
+
+def record(ver, msg):
+    return bytes([22]) + ver + bytes([len(msg) >> 8, len(msg) & 0xff]) + msg
+
+
+_SH_TEMPLATES = {}
+
+
+def sh_template(kind, span, v):
+    """a genuine ServerHello of an honest tlslite server that negotiates v with a client of `span`"""
+    key = (kind, span, v)
+    if key not in _SH_TEMPLATES:
+        c, gc, a, b = start_client(kind, full_settings(*span))
+        r = step_until_blocked(gc, b)
+        srv, gs = start_server(kind, full_settings(v, v), a, b, "rsa" if kind == "cert" else None)
+        step_until_blocked(gs, a)
+        _SH_TEMPLATES[key] = first_handshake_msg(b.log, 2) if r == "blocked" else None
+    return _SH_TEMPLATES[key]
+
+
+def client_guard_case(kind, span, v, s):
+    """a client of `span` receives a ServerHello negotiating v with suite s.
+    -> (decision, offered): decision 'accept' | 'reject:<alert>' | 'error:<what>'"""
+    tpl = sh_template(kind, span, v)
+    if tpl is None:
+        return "error:no-template", []
+    ver, sh = tpl
+    c, gc, a, b = start_client(kind, full_settings(*span))
+    r = step_until_blocked(gc, b)
+    ch = first_handshake_msg(a.log, 1)
+    if r != "blocked" or ch is None:
+        return "error:no-client-hello", []
+    chf = hello_fields(ch[1])
+    shf = hello_fields(sh)
+    msg = bytearray(sh)
+    if v >= (3, 4) and len(shf["sid"]) == len(chf["sid"]):
+        msg[39:39 + len(chf["sid"])] = chf["sid"]       # TLS 1.3: legacy_session_id_echo
+    msg[shf["suite_at"]] = s >> 8
+    msg[shf["suite_at"] + 1] = s & 0xff
+    b.buf += record(ver, bytes(msg))
+    r = step_until_blocked(gc, b)
+    if r == "blocked":
+        return "accept", chf["suites"]
+    if r == "completed":
+        return "error:completed", chf["suites"]
+    if r[0] == "alert":
+        return "reject:%d" % r[1], chf["suites"]
+    return "error:" + r[1], chf["suites"]
+
+
+def faulty_server_full(kind, span, v, s, cred_kind="rsa"):
+    """a CONSISTENT misbehaving server: while (and only while) the server is stepped, the version
+    filter is replaced by one that leaves exactly suite s, so the server negotiates v with s and
+    keys its connection accordingly.  -> (client outcome, server outcome, data delivered?)"""
+    from tlslite.constants import CipherSuite as C
+    from tlslite.errors import TLSLocalAlert, TLSRemoteAlert
+    orig = C.__dict__["filterForVersion"]
+    c, gc, a, b = start_client(kind, full_settings(*span))
+    st = full_settings(v, v)
+    srv, gs = start_server(kind, st, a, b, cred_kind)
+    out = {"client": None, "server": None}
+    gens = {"client": gc, "server": gs}
+    try:
+        for _ in range(20000):
+            for side in ("client", "server"):
+                if out[side] is not None:
+                    continue
+                if side == "server":
+                    C.filterForVersion = staticmethod(lambda suites, minVersion, maxVersion: [s])
+                try:
+                    next(gens[side])
+                except StopIteration:
+                    out[side] = "completed"
+                except TLSLocalAlert as e:
+                    out[side] = "alert:%d" % e.description
+                except TLSRemoteAlert as e:
+                    out[side] = "remote-alert:%d" % e.description
+                except Exception as e:
+                    out[side] = "error:" + exc_name(e)
+                finally:
+                    if side == "server":
+                        C.filterForVersion = orig
+            if all(out.values()):
+                break
+            if not a.buf and not b.buf and any(out.values()):
+                # one side is gone and nothing is in flight: the other can only wait
+                for side in out:
+                    out[side] = out[side] or "waiting"
+                break
+    finally:
+        C.filterForVersion = orig
+    delivered = False
+    if out["client"] == "completed" and out["server"] == "completed":
+        try:
+            for _ in srv.writeAsync(bytearray(b"pong")):
+                pass
+            for r in c.readAsync(max=10, min=4):
+                if r not in (0, 1):
+                    delivered = bytes(r) == b"pong"
+                    break
+        except Exception:
+            delivered = False
+    return out["client"], out["server"], delivered, (c.session.cipherSuite if out["client"] == "completed" else None,
+                                                       tuple(c.version) if out["client"] == "completed" else None)
+
+
+def server_guard_case(v, s, sem):
+    """a server (all-enabling settings, credentials fitting s) receives a ClientHello for version v
+    that offers only suite s.  -> 'select:<suite>' | 'alert:<n>' | 'error:<what>'"""
+    kind, cred = "cert", "rsa"
+    if sem is not None and not sem["tls13"]:
+        if sem["kex"] == "srp":
+            kind, cred = "srp", ("rsa" if sem["auth"] == "rsa" else None)
+        elif sem["auth"] == "anon":
+            kind, cred = "anon", None
+        else:
+            cred = {"rsa": "rsa", "ecdsa": "ecdsa", "dss": "dsa"}.get(sem["auth"], "rsa")
+    if cred and creds(cred) is None:
+        return "error:no-credentials"
+    c, gc, a, b = start_client(kind, full_settings(v, v))
+    r = step_until_blocked(gc, b)
+    ch = first_handshake_msg(a.log, 1)
+    if r != "blocked" or ch is None:
+        return "error:no-client-hello"
+    ver, msg = ch
+    f = hello_fields(msg)
+    suites = bytes([s >> 8, s & 0xff, 0x00, 0xff])
+    body = msg[4:f["suites_at"]] + bytes([0, len(suites)]) + suites + msg[f["suites_at"] + 2 + f["suites_len"]:]
+    new = bytes([1, len(body) >> 16, (len(body) >> 8) & 0xff, len(body) & 0xff]) + body
+    a2, b2 = Pipe(), Pipe()
+    srv, gs = start_server(kind, full_settings((3, 0), (3, 4)), a2, b2, cred)
+    a2.buf += record(ver, new)
+    r = step_until_blocked(gs, a2)
+    sh = first_handshake_msg(b2.log, 2)
+    if sh is not None:
+        return "select:%d" % hello_fields(sh[1])["suite"]
+    if r == "blocked":
+        return "error:blocked-without-hello"
+    if r == "completed":
+        return "error:completed"
+    return "%s:%s" % (r[0], r[1])
+
+
+def faulty_peer_part(ctx, neg):
+    from tlslite.constants import CipherSuite as C
+    names = dict(C.ietfNames)
+    ids = all_ids()
+    unknown = [0x0003, 0x1306, 0xc033]
+    lc = ctx.lean()
+    t0 = time.time()
+
+    def undefined(s, v):
+        sem = parse_iana(names.get(s, ""))
+        return sem is None or not defined_in(sem, v)
+
+    # ---- client as victim: ServerHello with a suite of the wrong era
+    plans = [("cert", ((3, 0), (3, 4))), ("cert", ((3, 3), (3, 4))), ("cert", ((3, 0), (3, 3))),
+             ("anon", ((3, 0), (3, 3))), ("srp", ((3, 1), (3, 3)))]
+    if ctx.thorough():
+        plans += [("cert", ((3, 2), (3, 4))), ("cert", ((3, 0), (3, 2))), ("cert", ((3, 4), (3, 4))),
+                  ("anon", ((3, 2), (3, 3))), ("srp", ((3, 0), (3, 3)))]
+    pending = []
+    flagged = []
+    for kind, span in plans:
+        for v in VERSIONS:
+            if not (span[0] <= v <= span[1]):
+                continue
+            if sh_template(kind, span, v) is None:
+                # an honest tlslite server does not reach this version with this client (e.g. SSLv3 against a
+                # client that also offers TLS 1.3): no genuine ServerHello to start from
+                ctx.count("client-guard:no-honest-template")
+                continue
+            for s in ids + unknown:
+                if s > 0xffff:      # SSLv2 cipher kinds do not fit the ServerHello field
+                    continue
+                dec, offered = client_guard_case(kind, span, v, s)
+                case = {"stage": "faulty-server", "client": kind, "span": [list(span[0]), list(span[1])],
+                        "version": list(v), "suite": s, "name": names.get(s)}
+                ctx.case(key=("cguard", kind, span, v, s), sample=dict(case, decision=dec)
+                         if (s in (0xc02f, 0x1301) and v == (3, 4) and kind == "cert") else None)
+                ctx.count("client-guard:" + dec.split(":")[0] + (":undefined" if undefined(s, v) else ":defined"))
+                if dec == "accept" and undefined(s, v):
+                    flagged.append((kind, span, v, s, case))
+                pending.append((case, dec, "cguard %d %d %d %s" % (v[0], v[1], s, nl(offered))))
+    if lc is not None and pending:
+        out = lc.batch([p[2] for p in pending])
+        for (case, dec, line), m in zip(pending, out):
+            ctx.compared()
+            want = {"1": "accept", "0": "reject"}.get(m, m)
+            if dec.split(":")[0] != want:
+                ctx.disagree("client-serverhello-suite-guard", dict(case, request=line), want, dec)
+    for kind, span, v, s, case in flagged:
+        full = faulty_server_full(kind, span, v, s)
+        ctx.violation("c20:client-accepts-out-of-version-suite",
+                      "(%d such suite/version/client cases, first:) %s client offering %d.%d..%d.%d accepts a ServerHello that negotiates %d.%d with 0x%04x %s, which that "
+                      "version does not define (consistent misbehaving server: client %s, server %s, data delivered %s)"
+                      % (len(flagged), kind, span[0][0], span[0][1], span[1][0], span[1][1], v[0], v[1], s, names.get(s),
+                         full[0], full[1], full[2]),
+                      dict(case, parameter="client-guard", consistent_faulty_server=list(full[:3]),
+                           all_flagged=[[f[0], list(f[2]), f[3]] for f in flagged[:200]]))
+        break
+    # ---- the same with a consistent misbehaving server, to completion (subset: suites the server can run)
+    full_plans = [("cert", ((3, 3), (3, 4)), (3, 4)), ("cert", ((3, 1), (3, 3)), (3, 1)), ("cert", ((3, 0), (3, 4)), (3, 3))]
+    for kind, span, v in full_plans:
+        c0, g0, a0, b0 = start_client(kind, full_settings(*span))
+        step_until_blocked(g0, b0)
+        ch = first_handshake_msg(a0.log, 1)
+        offered = hello_fields(ch[1])["suites"] if ch else []
+        cands = [s for s in offered if s in names and undefined(s, v)]
+        if not ctx.thorough():
+            ctx.rng.shuffle(cands)
+            cands = sorted(cands[:12])
+        for s in cands:
+            sem = parse_iana(names[s])
+            cred = {"rsa": "rsa", "ecdsa": "ecdsa", "dss": "dsa"}.get(sem["auth"], "rsa") if sem else "rsa"
+            if creds(cred) is None:
+                continue
+            cl, sv, delivered, got = faulty_server_full(kind, span, v, s, cred)
+            ctx.case(key=("faulty-full", kind, span, v, s), sample=None)
+            ctx.count("faulty-server-full:client-" + cl.split(":")[0])
+            if cl == "completed":
+                ctx.violation("c20:client-accepts-out-of-version-suite",
+                              "client offering %d.%d..%d.%d completes a %d.%d handshake with 0x%04x %s chosen by a misbehaving "
+                              "server (data delivered: %s); that version does not define the suite"
+                              % (span[0][0], span[0][1], span[1][0], span[1][1], v[0], v[1], s, names[s], delivered),
+                              {"stage": "faulty-server", "parameter": "client-guard", "client": kind,
+                               "span": [list(span[0]), list(span[1])], "version": list(v), "suite": s, "name": names[s],
+                               "consistent_faulty_server": [cl, sv, delivered]})
+    # ---- server as victim: ClientHello offering only a suite of the wrong era
+    pending = []
+    for v in VERSIONS:
+        negset = set(neg[("server", v)])
+        for s in ids:
+            name = names.get(s)
+            sem = parse_iana(name) if name else None
+            if name is None or "SCSV" in name or name.startswith("SSL_CK"):
+                continue
+            dec = server_guard_case(v, s, sem)
+            case = {"stage": "faulty-client", "version": list(v), "suite": s, "name": name}
+            ctx.case(key=("sguard", v, s), sample=dict(case, decision=dec) if (s == 0x1301 and v == (3, 3)) else None)
+            ctx.count("server-guard:" + dec.split(":")[0] + (":undefined" if undefined(s, v) else ":defined"))
+            selected = dec == "select:%d" % s
+            if selected and undefined(s, v):
+                ctx.violation("c20:server-selects-out-of-version-suite",
+                              "server answers a %d.%d ClientHello offering only 0x%04x %s by selecting it; that version does "
+                              "not define the suite" % (v[0], v[1], s, name), dict(case, parameter="server-guard"))
+            if dec.startswith("select:") and not selected:
+                ctx.violation("c20:server-selects-unoffered-suite:0x%04x" % s,
+                              "server answers a ClientHello offering only 0x%04x with %s" % (s, dec),
+                              dict(case, parameter="server-guard"))
+            ctx.compared()
+            if selected != (s in negset):
+                ctx.disagree("server-suite-selection", case, "select" if s in negset else "refuse", dec)
+    ctx.extra["faulty_peer"] = {"wall_s": round(time.time() - t0, 1), "client_guard_flagged": len(flagged)}
+
+
 def run(ctx):
     ctx.rule = ("exhaustive: every identifier in ietfNames or any classification list (+8 unknown ids) x every mirrored function; "
                 "filterForVersion over all (min,max) pairs; filter_for_certificate over all certificate algorithms; every "
                 "get*Suites and _filterSuites over all-enabled / one-name-removed / one-name-only / default / seeded random "
                 "settings x 5 versions; every negotiable suite x version x role: implementation parameters vs Lean model vs "
-                "Lean spec vs Python spec; live loopback handshake for every negotiable suite x version; distinct = distinct (stream, suite, version, role, settings)")
+                "Lean spec vs Python spec; live loopback handshake for every negotiable suite x version; faulty peers: every known suite id "
+                "put into a genuine ServerHello for every version x client kind/version span (client must reject what the version "
+                "does not define), a consistent misbehaving server run to completion, and every suite offered alone in a genuine "
+                "ClientHello of every version (server must not select what the version does not define); distinct = distinct (stream, suite, version, role, settings)")
     ctx.assumptions = ["the independent Python reading parse_iana/spec_obs in harness/props/c20.py states what a registered name denotes",
                        "pure-python cipher implementations (no m2crypto/pycrypto in this environment)",
                        "test credentials of /repo/tests (RSA, ECDSA P-256, DSA); SRP verifier generated on the fly"]
     neg, statics = static_part(ctx)
     live_part(ctx, neg, ctx.pick(45, 600))
+    faulty_peer_part(ctx, neg)
 
 
 def replay(ctx, rep):
@@ -1207,6 +1558,26 @@ def replay(ctx, rep):
         status, obs = live_one(ctx, s, v, name, parse_iana(name))
         print("live handshake 0x%04x %s in %d.%d: %s" % (s, name, v[0], v[1], status))
         return status != "ok"
+    if inp.get("stage") == "faulty-server":
+        span = (tuple(inp["span"][0]), tuple(inp["span"][1]))
+        v = tuple(inp["version"])
+        dec, offered = client_guard_case(inp["client"], span, v, s)
+        name = C.ietfNames.get(s)
+        sem = parse_iana(name) if name else None
+        undef = sem is None or not defined_in(sem, v)
+        print("client %s offering %s..%s, ServerHello negotiating %s with 0x%04x %s: %s (suite defined for that version: %s)"
+              % (inp["client"], span[0], span[1], v, s, name, dec, not undef))
+        cred = {"rsa": "rsa", "ecdsa": "ecdsa", "dss": "dsa"}.get(sem["auth"], "rsa") if sem else "rsa"
+        full = faulty_server_full(inp["client"], span, v, s, cred)
+        print("consistent misbehaving server: client %s, server %s, application data delivered: %s" % full[:3])
+        return undef and (dec == "accept" or full[0] == "completed")
+    if inp.get("stage") == "faulty-client":
+        v = tuple(inp["version"])
+        name = C.ietfNames.get(s)
+        sem = parse_iana(name) if name else None
+        dec = server_guard_case(v, s, sem)
+        print("server, ClientHello for %s offering only 0x%04x %s: %s" % (v, s, name, dec))
+        return dec.startswith("select:") and (dec != "select:%d" % s or sem is None or not defined_in(sem, v))
     if s is None or inp.get("stage") not in ("oracle", "live"):
         print("replay of stage %r: re-running the whole check" % inp.get("stage"))
         run(ctx)
